@@ -305,7 +305,8 @@ pub fn guided_lt_msg(rng: &mut impl Rng, d: &Driver) -> MsgSpec {
         let cookie = algs != "none" || rng(2) == 0;
         json!({"realm": if rng(12) == 0 { "other" } else { "ok" },
                "nonce": if cookie { "fresh_cookie" } else { "fresh" },
-               "pa": algs != "none", "ua": cookie && rng(3) == 0, "algs": algs, "dup": rng(10) == 0})
+               "pa": algs != "none", "ua": cookie && rng(3) == 0, "algs": algs,
+               "dup": match rng(20) { 0 => json!(true), 1 | 2 => json!("flip"), 3 => json!("algs"), _ => json!(false) }})
     };
     let mut r = |n: u32| rng.random_range(0..n);
     if state == "First" {
